@@ -137,3 +137,38 @@ def short_date_recogniser_agrees(run: Run, model: PyModel, rid: str) -> bool:
         return False
     run.proved(rid, f"is_short_date_spec agrees with the calendar on all {n} classes of six-digit strings (hand-written recogniser, evaluated abstractly)")
     return True
+
+
+def no_memoised_clock(run: Run, model: PyModel, rid: str, roots: list, floor: int = 1) -> None:
+    """'today' is read anew on every use: no zorg function from which a clock read (date.today(), datetime.now(), ...) is reachable carries a caching
+    decorator (functools.cache / lru_cache / cached_property ...), and none stores a clock read in a module-level name.  A memoised function would answer
+    with the day of its first call for the rest of the process (an editor session kept open over midnight, a long-lived API user)."""
+    from .util import clock_calls
+
+    cg = model.callgraph()
+    slice_ = sorted(model.reachable(roots))
+    readers = {q for q in model.funcs if clock_calls(model.funcs[q].node)}
+    # backward closure: functions that (transitively) call a clock reader
+    dep = set(readers)
+    changed = True
+    while changed:
+        changed = False
+        for q, edges in cg.items():
+            if q not in dep and any(t in dep for _, t in edges):
+                dep.add(q)
+                changed = True
+    n = 0
+    for q in slice_:
+        if q not in dep:
+            continue
+        n += 1
+        f = model.funcs[q]
+        memo = [d for d in f.decorators() if any(w in d.lower() for w in ("cache", "memo"))]
+        run.check(rid, f"{f.name}: depends on the current date and is not memoised", not memo, f.name, memo[0] if memo else "no cache decorator",
+                  f"`{f.name}` is decorated with `{memo[0] if memo else ''}` although its result depends on the current date: after the first call every relative date "
+                  "(and everything computed from 'today') keeps denoting the offset from the day of that first call", file=f.file, node=f.node)
+    run.floor(f"clock-dependent functions checked for memoisation ({rid})", n, floor)
+    for mi in model.modules.values():
+        for name, expr in mi.assigns.items():
+            if expr is not None and clock_calls(expr) and any(q.startswith(mi.dotted + ".") for q in slice_):
+                run.refuted(rid, mi.dotted, f"{name} = {ast.unparse(expr)[:60]}", f"module-level `{name}` stores a clock read taken at import time: 'today' never advances within a process", file=mi.rel)
